@@ -18,7 +18,8 @@ func init() {
 			" GetRootJson and json() return exactly string(MarshalIndent(ToGoValue(v))) (no hand-written fast path, no post-processing of the encoder's text); the -o file is created only after that text exists; every selector result, a null included, becomes a root." +
 			" Indexing a string yields string(byte), never a sub-slice of the text; a copied null is a plain null." +
 			" Array methods do not write into a backing array the document may share; a for-in variable is a copy." +
-			" Member and index reads store nothing through their operand cells.",
+			" Member and index reads store nothing through their operand cells." +
+			" NewValue's arms and results are the documented table, with one fresh cell per element / member.",
 		notDecided: "value equality of the round trip (key order, escaping and number formatting are encoding/json's, trusted).",
 	})
 }
